@@ -114,7 +114,7 @@ def PcInv (s : Sub) : Prop :=
   | .sendPending => Pre s ∧ s.qHead ≤ s.last + 1 ∧ ∀ p, s.pending = some p → p ≤ s.last
   | .cancel => Pre s ∧ s.qHead ≤ s.last + 1
   | .drain => Pre s ∧ s.qHead ≤ s.last + 1
-  | .join => Pre s ∧ s.qHead ≤ s.last + 1
+  | .join => Pre s ∧ s.qTail ≤ s.last + 1
   | .live => False
   | .done => Pre s
 
@@ -127,13 +127,15 @@ structure Inv (e : Env) (s : Sub) : Prop where
   term : if s.pc = .done then TermOk s.out else NoTerm s.out
   pcs : PcInv s
 
-/-- invariant after the hand-over: the changes delivered are `base+1 ..< cur` -/
+/-- invariant after the hand-over (code since cb48448): the changes delivered are still exactly
+`base+1 ..= last`, and the receiver's next id is at most `last + 1` (nothing was skipped) -/
 structure InvLive (e : Env) (s : Sub) : Prop where
   h : s.handed = true
   pc : s.pc = .live ∨ s.pc = .done
   q3 : s.cur ≤ e.published + 1
   term : if s.pc = .done then TermOk s.out else NoTerm s.out
-  ids : ∃ b, s.base = some b ∧ b + 1 ≤ s.cur ∧ chg s.out = idsFrom b (s.cur - 1)
+  ids : Pre s
+  cl : s.cur ≤ s.last + 1
   qt : s.qt ≠ .running
 
 /-- the log read about to be made by the main task (if any) starts inside the retained log -/
@@ -142,10 +144,6 @@ def ReadOk (e : Env) (s : Sub) : Prop :=
   | .start => match s.mode with | .since n => e.pruned ≤ n | _ => True
   | .loop _ => e.pruned ≤ s.last
   | _ => True
-
-/-- nothing already delivered is still in flight when the receiver is handed over (and no lag
-was swallowed): the receiver's next id is `last + 1` -/
-def HandOk (s : Sub) : Prop := s.pc = .join → s.qt ≠ .failed → s.cur = s.last + 1
 
 theorem inv_attach (e : Env) (m : Mode) : Inv e (attach e m) := by
   refine ⟨?_, ?_, ?_, rfl, ?_, ?_⟩ <;> simp [attach, PcInv, NoTerm]
@@ -175,7 +173,7 @@ theorem inv_stepEnv (cfg : Cfg) {e : Env} {s : Sub} (a : Act) (h : Inv e s) : In
 
 theorem invLive_stepEnv (cfg : Cfg) {e : Env} {s : Sub} (a : Act) (h : InvLive e s) :
     InvLive (stepEnv cfg e a) s :=
-  ⟨h.h, h.pc, Nat.le_trans h.q3 (Nat.succ_le_succ (published_mono cfg e a)), h.term, h.ids, h.qt⟩
+  ⟨h.h, h.pc, Nat.le_trans h.q3 (Nat.succ_le_succ (published_mono cfg e a)), h.term, h.ids, h.cl, h.qt⟩
 
 theorem inv_qcancel {e : Env} {s : Sub} (h : Inv e s) : Inv e (stepQCancel s) := by
   unfold stepQCancel
@@ -186,28 +184,8 @@ theorem inv_qcancel {e : Env} {s : Sub} (h : Inv e s) : Inv e (stepQCancel s) :=
 theorem invLive_qcancel {e : Env} {s : Sub} (h : InvLive e s) : InvLive e (stepQCancel s) := by
   unfold stepQCancel
   split
-  · exact ⟨h.h, h.pc, h.q3, h.term, h.ids, by simp⟩
+  · exact ⟨h.h, h.pc, h.q3, h.term, h.ids, h.cl, by simp⟩
   · exact h
-
-theorem inv_qrecv (cfg : Cfg) {e : Env} {s : Sub} (h : Inv e s) : Inv e (stepQRecv cfg e s) := by
-  obtain ⟨q1, q2, q3, nh, term, pcs⟩ := h
-  unfold stepQRecv
-  split
-  · split
-    · rename_i hl
-      simp only [lagging, decide_eq_true_eq] at hl
-      refine ⟨q1, ?_, ?_, nh, term, pcs⟩ <;> simp only [] <;> omega
-    · split
-      · split
-        · exact ⟨q1, q2, q3, nh, term, pcs⟩
-        · refine ⟨?_, ?_, ?_, nh, term, ?_⟩
-          · simp only []; omega
-          · simp only []; omega
-          · simp only []; omega
-          · revert pcs; unfold PcInv Pre; simp only []; exact id
-      · exact ⟨q1, q2, q3, nh, term, pcs⟩
-  · exact ⟨q1, q2, q3, nh, term, pcs⟩
-
 
 /-- One step of the main task before the hand-over: either the invariant still holds, or this was
 the hand-over itself. -/
@@ -371,8 +349,10 @@ theorem inv_main (cfg : Cfg) {e : Env} {s : Sub} (he : EnvOk e) (h : Inv e s) (h
       · refine ⟨by first | omega | (simp only []; omega), q2, q3, nh, by simpa using term', ?_⟩
         simp only [PcInv]
         exact ⟨hp, by first | omega | (simp only []; omega)⟩
-    · split
-      · exact ⟨q1, q2, q3, nh, by simpa using term', by simp only [PcInv]; exact ⟨hp, hq⟩⟩
+    · rename_i hge
+      try dsimp only at hge
+      split
+      · exact ⟨q1, q2, q3, nh, by simpa using term', by simp only [PcInv]; exact ⟨hp, by omega⟩⟩
       · exact ⟨q1, q2, q3, nh, by simpa using term, by simp only [PcInv]; exact ⟨hp, hq⟩⟩
   | join =>
     simp only [PcInv] at pcs
@@ -416,7 +396,7 @@ theorem joinQt_qrecv (cfg : Cfg) (e : Env) {s : Sub} (h : JoinQt s) : JoinQt (st
     have hn : s.pc ≠ .join := by
       intro hj; rcases h hj with h' | h' <;> rw [h'] at hr <;> cases hr
     split
-    · intro hj; exact absurd hj hn
+    · split <;> (intro hj; exact absurd hj hn)
     · split
       · split
         · intro hj; exact absurd hj hn
@@ -445,52 +425,148 @@ theorem joinQt_main (cfg : Cfg) (e : Env) {s : Sub} : JoinQt (stepMain cfg e s) 
   case live => (repeat' split) <;> simp
   case done => simp
 
+theorem inv_qrecv (cfg : Cfg) {e : Env} {s : Sub} (h : Inv e s) (hj : JoinQt s) :
+    Inv e (stepQRecv cfg e s) := by
+  obtain ⟨q1, q2, q3, nh, term, pcs⟩ := h
+  unfold stepQRecv
+  split
+  · rename_i hrun
+    have hnj : s.pc ≠ .join := by
+      intro hpc; rcases hj hpc with h' | h' <;> rw [h'] at hrun <;> cases hrun
+    split
+    · rename_i hl
+      simp only [lagging, decide_eq_true_eq] at hl
+      split
+      · exact ⟨q1, q2, q3, nh, term, pcs⟩
+      · refine ⟨q1, ?_, ?_, nh, term, ?_⟩
+        · simp only []; omega
+        · simp only []; omega
+        · revert pcs hnj
+          obtain ⟨mode, pc, cur, qHead, qTail, qt, cancelled, last, minId, pending, target, base, handed, out⟩ := s
+          cases pc <;> simp only [PcInv, Pre] <;> intro pcs hnj <;> first | exact pcs | exact absurd rfl hnj
+    · split
+      · split
+        · exact ⟨q1, q2, q3, nh, term, pcs⟩
+        · refine ⟨?_, ?_, ?_, nh, term, ?_⟩
+          · simp only []; omega
+          · simp only []; omega
+          · simp only []; omega
+          · revert pcs hnj
+            obtain ⟨mode, pc, cur, qHead, qTail, qt, cancelled, last, minId, pending, target, base, handed, out⟩ := s
+            cases pc <;> simp only [PcInv, Pre] <;> intro pcs hnj <;> first | exact pcs | exact absurd rfl hnj
+      · exact ⟨q1, q2, q3, nh, term, pcs⟩
+  · exact ⟨q1, q2, q3, nh, term, pcs⟩
+
+/-- buffering task (code since cb48448): it never swallows a lag, and while it runs or after it
+stopped everything it read is in the queue -/
+def QInv (s : Sub) : Prop :=
+  s.handed = false → s.qt ≠ .stuck ∧ ((s.qt = .running ∨ s.qt = .stopped) → s.qTail = s.cur)
+
+theorem qinv_attach (e : Env) (m : Mode) : QInv (attach e m) := by
+  intro _; simp [attach]
+
+theorem qinv_qcancel {s : Sub} (h : QInv s) : QInv (stepQCancel s) := by
+  unfold stepQCancel
+  split
+  · rename_i hc
+    intro hh
+    obtain ⟨h1, h2⟩ := h hh
+    refine ⟨by simp, fun _ => ?_⟩
+    rcases hc.2 with hr | hr
+    · exact h2 (Or.inl hr)
+    · exact absurd hr h1
+  · exact h
+
+theorem qinv_qrecv (cfg : Cfg) (e : Env) {s : Sub} (hf : cfg.fixed = true) (h : QInv s) :
+    QInv (stepQRecv cfg e s) := by
+  unfold stepQRecv
+  simp only [hf, if_true]
+  split
+  · split
+    · intro _; exact ⟨by simp, fun h' => by rcases h' with h' | h' <;> cases h'⟩
+    · split
+      · split
+        · intro _; exact ⟨by simp, fun h' => by rcases h' with h' | h' <;> cases h'⟩
+        · rename_i hrun _ _ _
+          intro hh
+          refine ⟨?_, fun _ => rfl⟩
+          dsimp only; rw [hrun]; simp
+      · exact h
+  · exact h
+
+theorem qinv_main (cfg : Cfg) (e : Env) {s : Sub} (hpc : s.pc ≠ .live) (h : QInv s) :
+    QInv (stepMain cfg e s) := by
+  obtain ⟨mode, pc, cur, qHead, qTail, qt, cancelled, last, minId, pending, target, base, handed, out⟩ := s
+  unfold QInv at h ⊢
+  dsimp only at h hpc
+  cases pc <;> simp only [stepMain]
+  case start => cases mode <;> exact h
+  case readEoq => exact h
+  case tryRecv => (repeat' split) <;> exact h
+  case loop => (repeat' split) <;> exact h
+  case afterLoop => (repeat' split) <;> exact h
+  case sendPending => (repeat' split) <;> exact h
+  case cancel => exact h
+  case drain => (repeat' split) <;> exact h
+  case join => split <;> first | exact h | (intro hh; cases hh)
+  case live => exact absurd rfl hpc
+  case done => exact h
+
 theorem invLive_qrecv (cfg : Cfg) {e : Env} {s : Sub} (h : InvLive e s) : stepQRecv cfg e s = s := by
   unfold stepQRecv
   rw [if_neg h.qt]
 
-theorem invLive_main (cfg : Cfg) {e : Env} {s : Sub} (h : InvLive e s) : InvLive e (stepMain cfg e s) := by
-  obtain ⟨hh, hpc, q3, term, ⟨b, hb, hle, hc⟩, hqt⟩ := h
+theorem invLive_main (cfg : Cfg) {e : Env} {s : Sub} (hf : cfg.fixed = true) (h : InvLive e s) :
+    InvLive e (stepMain cfg e s) := by
+  obtain ⟨hh, hpc, q3, term, ⟨b, hb, hle, hc⟩, hcl, hqt⟩ := h
   obtain ⟨mode, pc, cur, qHead, qTail, qt, cancelled, last, minId, pending, target, base, handed, out⟩ := s
-  dsimp only at hh hpc q3 term hb hle hc hqt
+  dsimp only at hh hpc q3 term hb hle hc hcl hqt
   rcases hpc with rfl | rfl
   · have term' : NoTerm out := by simpa using term
     simp only [stepMain]
     split
     · exact ⟨hh, Or.inr rfl, q3, by simpa using TermOk.of_noTerm_append term' termOk_closed,
-        ⟨b, hb, hle, by simpa [chg_append, chg] using hc⟩, hqt⟩
+        ⟨b, hb, hle, by simpa [chg_append, chg] using hc⟩, hcl, hqt⟩
     · split
       · rename_i hcp
         try dsimp only at hcp
-        refine ⟨hh, Or.inl rfl, by dsimp only; omega, ?_, ⟨b, hb, by dsimp only; omega, ?_⟩, hqt⟩
-        · simpa using NoTerm.append term' (NoTerm.single_change _)
-        · dsimp only
-          simp only [chg_append, chg, hc]
-          have h1 : cur - 1 + 1 = cur := by omega
-          have := idsFrom_succ (a := b) (b := cur - 1) (by omega)
-          rw [h1] at this
-          simpa using this
-      · exact ⟨hh, Or.inl rfl, q3, by simpa using term', ⟨b, hb, hle, hc⟩, hqt⟩
+        try simp only [hf, if_true]
+        split
+        · rename_i hsk
+          try dsimp only at hsk
+          exact ⟨hh, Or.inl rfl, by dsimp only; omega, by simpa using term', ⟨b, hb, hle, hc⟩,
+            by dsimp only; omega, hqt⟩
+        · rename_i hsk
+          try dsimp only at hsk
+          have hcur : cur = last + 1 := by omega
+          subst hcur
+          refine ⟨hh, Or.inl rfl, by dsimp only; omega, ?_, ⟨b, hb, by dsimp only; omega, ?_⟩,
+            by dsimp only; omega, hqt⟩
+          · simpa using NoTerm.append term' (NoTerm.single_change _)
+          · dsimp only
+            simp only [chg_append, chg, hc]
+            exact idsFrom_succ hle
+      · exact ⟨hh, Or.inl rfl, q3, by simpa using term', ⟨b, hb, hle, hc⟩, hcl, hqt⟩
   · simp only [stepMain]
-    exact ⟨hh, Or.inr rfl, q3, term, ⟨b, hb, hle, hc⟩, hqt⟩
+    exact ⟨hh, Or.inr rfl, q3, term, ⟨b, hb, hle, hc⟩, hcl, hqt⟩
 
-/-- the hand-over step, when nothing already delivered is in flight -/
-theorem invLive_handover {e : Env} {s : Sub} (h : Inv e s) (hj : s.pc = .join) (hq : JoinQt s)
-    (hf : s.qt ≠ .failed) (hc : s.cur = s.last + 1) :
+/-- the hand-over step -/
+theorem invLive_handover {e : Env} {s : Sub} (h : Inv e s) (hj : s.pc = .join) (hq : JoinQt s) (hqi : QInv s)
+    (hf : s.qt ≠ .failed) :
     InvLive e { s with pc := .live, handed := true } := by
   obtain ⟨q1, q2, q3, nh, term, pcs⟩ := h
   unfold PcInv at pcs
   rw [hj] at pcs
-  obtain ⟨⟨b, hb, hle, hcg⟩, _⟩ := pcs
-  refine ⟨rfl, Or.inl rfl, q3, ?_, ⟨b, hb, ?_, ?_⟩, ?_⟩
-  · rw [hj] at term; simpa using term
-  · dsimp only; omega
-  · dsimp only; rw [hc]; simpa using hcg
-  · dsimp only
+  obtain ⟨hpre, hqt⟩ := pcs
+  have hst : s.qt = .stopped := by
     rcases hq hj with h' | h'
-    · rw [h']; simp
+    · exact h'
     · exact absurd h' hf
-
+  have hcur : s.qTail = s.cur := (hqi nh).2 (Or.inr hst)
+  refine ⟨rfl, Or.inl rfl, q3, ?_, hpre, ?_, ?_⟩
+  · rw [hj] at term; simpa using term
+  · dsimp only at hqt ⊢; omega
+  · dsimp only; rw [hst]; simp
 
 /-! ### schedules -/
 
@@ -499,11 +575,6 @@ theorem invLive_handover {e : Env} {s : Sub} (h : Inv e s) (hj : s.pc = .join) (
 def SchedOk (cfg : Cfg) : State → List Act → Prop
   | _, [] => True
   | st, a :: as => (a = .main → ReadOk st.1 st.2) ∧ SchedOk cfg (step cfg st a) as
-
-/-- … and nothing already delivered is in flight at the hand-over -/
-def SchedClean (cfg : Cfg) : State → List Act → Prop
-  | _, [] => True
-  | st, a :: as => (a = .main → ReadOk st.1 st.2 ∧ HandOk st.2) ∧ SchedClean cfg (step cfg st a) as
 
 theorem handed_mono (cfg : Cfg) (st : State) (a : Act) (h : st.2.handed = true) :
     (step cfg st a).2.handed = true := by
@@ -522,13 +593,22 @@ theorem run_handed (cfg : Cfg) (acts : List Act) : ∀ st : State, st.2.handed =
   | nil => intro st h; exact h
   | cons a as ih => intro st h; exact ih _ (handed_mono cfg st a h)
 
-/-- Before the hand-over the invariant holds along every schedule whose reads are inside the log. -/
+theorem run_envOk (cfg : Cfg) (acts : List Act) : ∀ st : State, EnvOk st.1 → EnvOk (run cfg st acts).1 := by
+  induction acts with
+  | nil => intro st h; exact h
+  | cons b bs ihb =>
+    intro st h
+    simp only [run]
+    apply ihb
+    cases b <;> first | exact h | exact envOk_step cfg _ _ h
+
+/-- Before the hand-over the invariant holds along every schedule whose reads are inside the log
+(for the code before and after cb48448). -/
 theorem run_inv (cfg : Cfg) (acts : List Act) : ∀ st : State, EnvOk st.1 → Inv st.1 st.2 → JoinQt st.2 →
     SchedOk cfg st acts →
-    EnvOk (run cfg st acts).1 ∧
-      ((Inv (run cfg st acts).1 (run cfg st acts).2) ∨ (run cfg st acts).2.handed = true) := by
+    ((Inv (run cfg st acts).1 (run cfg st acts).2) ∨ (run cfg st acts).2.handed = true) := by
   induction acts with
-  | nil => intro st he hi _ _; exact ⟨he, Or.inl hi⟩
+  | nil => intro st _ hi _ _; exact Or.inl hi
   | cons a as ih =>
     intro st he hi hj hs
     obtain ⟨e, s⟩ := st
@@ -541,25 +621,16 @@ theorem run_inv (cfg : Cfg) (acts : List Act) : ∀ st : State, EnvOk st.1 → I
       rcases inv_main cfg he hi (hra rfl) with h' | ⟨_, _, heq⟩
       · exact ih _ he h' (joinQt_main cfg e) hrest
       · have hh : (stepMain cfg e s).handed = true := by rw [heq]
-        have hE : ∀ (as : List Act) (st : State), EnvOk st.1 → EnvOk (run cfg st as).1 := by
-          intro as
-          induction as with
-          | nil => intro st h; exact h
-          | cons b bs ihb =>
-            intro st h
-            simp only [run]
-            apply ihb
-            cases b <;> first | exact h | exact envOk_step cfg _ _ h
-        exact ⟨hE as (e, stepMain cfg e s) he, Or.inr (run_handed cfg as (e, stepMain cfg e s) hh)⟩
-    | qrecv => simp only [step] at hrest ⊢; exact ih _ he (inv_qrecv cfg hi) (joinQt_qrecv cfg e hj) hrest
+        exact Or.inr (run_handed cfg as (e, stepMain cfg e s) hh)
+    | qrecv => simp only [step] at hrest ⊢; exact ih _ he (inv_qrecv cfg hi hj) (joinQt_qrecv cfg e hj) hrest
     | qcancel => simp only [step] at hrest ⊢; exact ih _ he (inv_qcancel hi) (joinQt_qcancel hj) hrest
     | emit => simp only [step] at hrest ⊢; exact ih _ (envOk_step cfg e .emit he) (inv_stepEnv cfg .emit hi) hj hrest
     | commit => simp only [step] at hrest ⊢; exact ih _ (envOk_step cfg e .commit he) (inv_stepEnv cfg .commit hi) hj hrest
     | publish => simp only [step] at hrest ⊢; exact ih _ (envOk_step cfg e .publish he) (inv_stepEnv cfg .publish hi) hj hrest
     | prune => simp only [step] at hrest ⊢; exact ih _ (envOk_step cfg e .prune he) (inv_stepEnv cfg .prune hi) hj hrest
 
-/-- After a clean hand-over the live invariant holds. -/
-theorem run_invLive (cfg : Cfg) (acts : List Act) : ∀ st : State, InvLive st.1 st.2 →
+/-- After the hand-over the live invariant holds (code since cb48448). -/
+theorem run_invLive (cfg : Cfg) (hf : cfg.fixed = true) (acts : List Act) : ∀ st : State, InvLive st.1 st.2 →
     InvLive (run cfg st acts).1 (run cfg st acts).2 := by
   induction acts with
   | nil => intro st h; exact h
@@ -570,7 +641,7 @@ theorem run_invLive (cfg : Cfg) (acts : List Act) : ∀ st : State, InvLive st.1
     simp only [run]
     apply ih
     cases a with
-    | main => exact invLive_main cfg h
+    | main => exact invLive_main cfg hf h
     | qrecv => simp only [step]; rw [invLive_qrecv cfg h]; exact h
     | qcancel => exact invLive_qcancel h
     | emit => exact invLive_stepEnv cfg .emit h
@@ -578,32 +649,43 @@ theorem run_invLive (cfg : Cfg) (acts : List Act) : ∀ st : State, InvLive st.1
     | publish => exact invLive_stepEnv cfg .publish h
     | prune => exact invLive_stepEnv cfg .prune h
 
-theorem run_inv_clean (cfg : Cfg) (acts : List Act) : ∀ st : State, EnvOk st.1 → Inv st.1 st.2 → JoinQt st.2 →
-    SchedClean cfg st acts →
+/-- Through the hand-over (code since cb48448): one of the two invariants holds along every
+schedule whose reads are inside the log. -/
+theorem run_inv_full (cfg : Cfg) (hf : cfg.fixed = true) (acts : List Act) : ∀ st : State, EnvOk st.1 →
+    Inv st.1 st.2 → JoinQt st.2 → QInv st.2 → SchedOk cfg st acts →
     (Inv (run cfg st acts).1 (run cfg st acts).2) ∨ InvLive (run cfg st acts).1 (run cfg st acts).2 := by
   induction acts with
-  | nil => intro st _ hi _ _; exact Or.inl hi
+  | nil => intro st _ hi _ _ _; exact Or.inl hi
   | cons a as ih =>
-    intro st he hi hj hs
+    intro st he hi hj hq hs
     obtain ⟨e, s⟩ := st
     obtain ⟨hra, hrest⟩ := hs
-    dsimp only at he hi hj hra
+    dsimp only at he hi hj hq hra
     simp only [run]
+    have hnl : s.pc ≠ .live := by
+      intro hpc
+      have := hi.pcs
+      unfold PcInv at this
+      rw [hpc] at this
+      exact this
     cases a with
     | main =>
       simp only [step] at hrest ⊢
-      obtain ⟨hro, hho⟩ := hra rfl
-      rcases inv_main cfg he hi hro with h' | ⟨hpc, hnf, heq⟩
-      · exact ih _ he h' (joinQt_main cfg e) hrest
+      rcases inv_main cfg he hi (hra rfl) with h' | ⟨hpc, hnf, heq⟩
+      · exact ih _ he h' (joinQt_main cfg e) (qinv_main cfg e hnl hq) hrest
       · right
         have hl : InvLive e (stepMain cfg e s) := by
-          rw [heq]; exact invLive_handover hi hpc hj hnf (hho hpc hnf)
-        exact run_invLive cfg as (e, stepMain cfg e s) hl
-    | qrecv => simp only [step] at hrest ⊢; exact ih _ he (inv_qrecv cfg hi) (joinQt_qrecv cfg e hj) hrest
-    | qcancel => simp only [step] at hrest ⊢; exact ih _ he (inv_qcancel hi) (joinQt_qcancel hj) hrest
-    | emit => simp only [step] at hrest ⊢; exact ih _ (envOk_step cfg e .emit he) (inv_stepEnv cfg .emit hi) hj hrest
-    | commit => simp only [step] at hrest ⊢; exact ih _ (envOk_step cfg e .commit he) (inv_stepEnv cfg .commit hi) hj hrest
-    | publish => simp only [step] at hrest ⊢; exact ih _ (envOk_step cfg e .publish he) (inv_stepEnv cfg .publish hi) hj hrest
-    | prune => simp only [step] at hrest ⊢; exact ih _ (envOk_step cfg e .prune he) (inv_stepEnv cfg .prune hi) hj hrest
+          rw [heq]; exact invLive_handover hi hpc hj hq hnf
+        exact run_invLive cfg hf as (e, stepMain cfg e s) hl
+    | qrecv =>
+      simp only [step] at hrest ⊢
+      exact ih _ he (inv_qrecv cfg hi hj) (joinQt_qrecv cfg e hj) (qinv_qrecv cfg e hf hq) hrest
+    | qcancel =>
+      simp only [step] at hrest ⊢
+      exact ih _ he (inv_qcancel hi) (joinQt_qcancel hj) (qinv_qcancel hq) hrest
+    | emit => simp only [step] at hrest ⊢; exact ih _ (envOk_step cfg e .emit he) (inv_stepEnv cfg .emit hi) hj hq hrest
+    | commit => simp only [step] at hrest ⊢; exact ih _ (envOk_step cfg e .commit he) (inv_stepEnv cfg .commit hi) hj hq hrest
+    | publish => simp only [step] at hrest ⊢; exact ih _ (envOk_step cfg e .publish he) (inv_stepEnv cfg .publish hi) hj hq hrest
+    | prune => simp only [step] at hrest ⊢; exact ih _ (envOk_step cfg e .prune he) (inv_stepEnv cfg .prune hi) hj hq hrest
 
 end Corro.CatchUp
